@@ -26,15 +26,15 @@ RULE = ("relabelling: 48 policy combinations x target label sets {str, float, ne
         "Softmax shift by dyadic c, LinGreedy(0) scale by 2^k. Non-trivial = relabelling that reverses the sort order of the "
         "labels, or a permutation moving rows across chunk boundaries, or a law case; distinct = (mode, combo, target labels / "
         "chunk sizes / constant, history skeleton)")
-BUDGET = {"quick": {"cases": 48 * 4 + 120 + 60, "shards": 8}, "thorough": {"cases": (48 * 4 + 120 + 60) * 60, "shards": 16, "wall_s": 2400}}
+TARGETS = ["str", "float", "negint", "strrev", "closefloat"]
+BLOCK = 48 * 5 + 120 + 60
+BUDGET = {"quick": {"cases": BLOCK * 3, "shards": 16}, "thorough": {"cases": BLOCK * 120, "shards": 16, "wall_s": 3600}}
 MIN = {"quick": {"evaluations": 600, "nontrivial": 150}, "thorough": {"evaluations": 30000, "nontrivial": 8000}}
 ASSUMPTIONS = ["relabelled twins are built with the same seed and the same arm-list order",
                "row-order invariance is exact only on exactly summable data (dyadic rewards, integer contexts); 1e-8 (1+|v|) for linear",
                "KNearest (tie-breaking by position), Clusters (k-means initialisation) and TreeBandit are outside the row-order clause"]
 
-TARGETS = ["str", "float", "negint", "strrev"]
 PERM_COMBOS = [(l, p) for l in gen.LP_KINDS for p in ("none", "radius", "lsh")]
-BLOCK = 48 * 4 + 120 + 60
 
 
 def relabel_op(op, mp):
@@ -69,7 +69,7 @@ def to_positions(out, op, inv):
 
 def run_relabel(rs, ctx, j):
     l, p = gen.ALL_COMBOS[j % 48]
-    target = TARGETS[(j // 48) % 4]
+    target = TARGETS[(j // 48) % 5]
     n_arms = int(rs.integers(2, 6))
     cfg = gen.gen_cfg(rs, l, p, labels="int", n_arms=n_arms, with_probs=bool(rs.integers(4) == 0))
     src, dst = gen.LABELS["int"], gen.LABELS[target]
@@ -204,8 +204,8 @@ def run_law(rs, ctx, j):
 
 def run_case(rs, ctx):
     j = ctx.index % BLOCK
-    if j < 48 * 4:
+    if j < 48 * 5:
         return run_relabel(rs, ctx, j)
-    if j < 48 * 4 + 120:
-        return run_perm(rs, ctx, j - 48 * 4)
-    return run_law(rs, ctx, j - 48 * 4 - 120)
+    if j < 48 * 5 + 120:
+        return run_perm(rs, ctx, j - 48 * 5)
+    return run_law(rs, ctx, j - 48 * 5 - 120)
